@@ -34,7 +34,7 @@ def c02(c):
         "every cell of the configuration matrix; UDP under asynchronous reading (the model's read buffer is constant per connection: "
         "finding D33 was a buffer that shrank between reads); NPoller > 1 (connections are independent: one poller per descriptor)",
     ]
-    args = ["-n", n(c, 2, 3), "-gate", n(c, 2500, 150000), "-reps", n(c, 2, 5)]
+    args = ["-n", n(c, 2, 3), "-gate", n(c, 2500, 100000), "-reps", n(c, 2, 4)]
     if c.tier == "thorough":
         args.append("-full")
     c.harness("readpath", args, overlay=True, model=MODEL, timeout=3000)
